@@ -438,9 +438,9 @@ theorem subInv_runCb (s : Stack) (cb : Cb) (hi : SubInv s) : SubInv (s.runCb cb)
     · split
       · exact hi
       · split
-        · exact subInv_stepOffer _ _ _ _ (subInv_frame (spi_cancelTimer_sleep _ _) hi)
-        · exact subInv_frame ((spi_stepFind _ _ _).trans (spi_cancelTimer_sleep _ _)) hi
-        · exact subInv_frame ((spi_stepSubscribe _ _ _).trans (spi_cancelTimer_sleep _ _)) hi
+        · exact subInv_stepOffer _ _ _ _ (subInv_frame (spi_cancelTimer_sleep _ _ _) hi)
+        · exact subInv_frame ((spi_stepFind _ _ _).trans (spi_cancelTimer_sleep _ _ _)) hi
+        · exact subInv_frame ((spi_stepSubscribe _ _ _).trans (spi_cancelTimer_sleep _ _ _)) hi
 
 theorem subInv_loop (s : Stack) (l : Loop Cb) (hi : SubInv s) : SubInv ({ s with loop := l } : Stack) := by
   intro i st hst; exact hi i st hst
